@@ -273,7 +273,10 @@ class Builder:
         return n
 
     def _exc_edges(self, n, st, ctx):
-        has_sub = any(isinstance(x, ast.Subscript) for x in ast.walk(st))
+        # a subscript can raise KeyError/IndexError when it is read or deleted (or is the target of an augmented
+        # assignment); a plain store `d[k] = v` cannot
+        aug_targets = {id(x.target) for x in ast.walk(st) if isinstance(x, ast.AugAssign)}
+        has_sub = any(isinstance(x, ast.Subscript) and (not isinstance(x.ctx, ast.Store) or id(x) in aug_targets) for x in ast.walk(st))
         has_call = any(isinstance(x, ast.Call) for x in ast.walk(st))
         for names, h in ctx.handlers:
             if names is None:            # catch-all
